@@ -17,9 +17,6 @@ first, as real `def`s so that `inspect.getsource` (label scraping, validation) w
 it to a file in its scratch directory and imports it. Names: parameters `x0, x1, …`, children `c0, c1, …`,
 classes `M<id>`, declared output labels `o0, o1, …`, scraped ones whatever the library scrapes
 (`c2`, `x1`).
-
-The two tiny fixed definitions at the bottom are importable from this module itself (used by the
-variant probe, which must not depend on a scratch directory).
 """
 
 from __future__ import annotations
@@ -54,13 +51,9 @@ def ret_expr(m, ret):
     if ret[0] == "a":
         return f"x{ret[1]}"
     ch = m["body"][ret[1]]
-    if nout(ch) == 1 and not ret_forces_label(m, ret):
+    if nout(ch) == 1:
         return f"self.c{ret[1]}"
     return f"self.c{ret[1]}.outputs.{out_labels(ch)[ret[2]]}"
-
-
-def ret_forces_label(m, ret):
-    return False
 
 
 def out_labels(node):
@@ -181,22 +174,3 @@ def render(defn):
         parts.append(render_macro(m))
         parts.append("")
     return "\n".join(parts) + "\n"
-
-
-# ---- fixed importable definitions (variant probe) ------------------------------------------------
-
-from pyiron_workflow import as_macro_node  # noqa: E402
-
-from . import nodes  # noqa: E402
-
-
-@as_macro_node("p", "q")
-def ProbeDup(self, x0="c1"):
-    self.c0 = nodes.F0(a=x0)
-    return self.c0, self.c0
-
-
-@as_macro_node("p")
-def ProbeOne(self, x0="c1"):
-    self.c0 = nodes.F0(a=x0)
-    return self.c0
